@@ -9,7 +9,7 @@ package ast
 // deliver), unfolded node by node with "use wf<Type>(n)"; ast nodes are immutable during
 // evaluation (frame obligations of C16), so it does not depend on the heap.
 //@ spec WFNode(n Node) bool
-//@ pred WFN(n Node) = n != nil && WFNode(n)
+//@ pred WFN(n Node) = n != nil && refof(n) != 0 && WFNode(n)
 
 //@ axiom wfProgram(p *Program): WFNode(iface(p)) ==> forall(k, 0, len(p.Statements), WFN(p.Statements[k]))
 //@ axiom wfExpressionStmt(s *ExpressionStmt): WFNode(iface(s)) ==> WFN(s.Expression)
